@@ -536,6 +536,12 @@ func (s *session) handleLogon(msg *Message) error {
 		return err
 	}
 
+	// BeginString, CompIDs and SendingTime must be acceptable as well: a Logon that is going
+	// to be refused must not wipe the store on the way.
+	if err := s.verifySelect(msg, false, false, false); err != nil {
+		return err
+	}
+
 	var resetSeqNumFlag FIXBoolean
 	if err := msg.Body.GetField(tagResetSeqNumFlag, &resetSeqNumFlag); err == nil {
 		if resetSeqNumFlag {
